@@ -109,16 +109,23 @@ Sphere3<T>::intersectT (const Line3<T>& line, T& t) const
 {
     bool doesIntersect = true;
 
-    Vec3<T> v = line.pos - center;
-    T       B = T (2.0) * (line.dir ^ v);
-    T       C = (v ^ v) - (radius * radius);
+    //
+    // With w the offset of the centre from the line (v minus its component
+    // along the unit direction), the line meets the sphere where
+    // t = -b -/+ sqrt (radius^2 - |w|^2).  Evaluating the discriminant of
+    // the quadratic from its coefficients instead, (2b)^2 - 4 (|v|^2 - r^2),
+    // cancels two terms of size |v|^2 and is rounding noise once the origin
+    // is a few hundred radii away (in float).
+    //
 
-    // compute discriminant
+    Vec3<T> v = line.pos - center;
+    T       b = line.dir ^ v;
+    Vec3<T> w = v - line.dir * b;
+    T       q = radius * radius - (w ^ w);
+
     // if negative, there is no intersection
 
-    T discr = B * B - T (4.0) * C;
-
-    if (discr < 0.0)
+    if (q < 0.0)
     {
         // line and Sphere3 do not intersect
 
@@ -126,16 +133,16 @@ Sphere3<T>::intersectT (const Line3<T>& line, T& t) const
     }
     else
     {
-        // t0: (-B - sqrt(B^2 - 4AC)) / 2A  (A = 1)
+        // t0: the nearer of the two points
 
-        T sqroot = std::sqrt (discr);
-        t        = (-B - sqroot) * T (0.5);
+        T sqroot = std::sqrt (q);
+        t        = -b - sqroot;
 
         if (t < 0.0)
         {
-            // no intersection, try t1: (-B + sqrt(B^2 - 4AC)) / 2A  (A = 1)
+            // behind the origin, try t1: the farther point
 
-            t = (-B + sqroot) * T (0.5);
+            t = -b + sqroot;
         }
 
         if (t < 0.0) doesIntersect = false;
